@@ -227,6 +227,34 @@ def run(chk):
         chk.ok("C16.persist", ld, "loaded cookies pass through update_cookies() (acceptance rules) and get their host-only flag and deadline back")
     else:
         chk.violation("C16.persist", ld, "_load_json_data", "host_only -> domain='' ; update_cookies ; _expire_cookie", "loading bypasses the acceptance rules or drops scope attributes")
+    # (round 6, seed C16-6) what only the jar knows is written for every cookie the jar knows it about: after load() the deadline and the
+    # host-only flag live in self._expirations / self._host_only_cookies alone (load() strips Max-Age/Expires from the morsel), so whether
+    # save() writes them may depend on those tables only - not on attributes the morsel happens to carry
+    for keyname, table in (("expires_timestamp", "self._expirations"), ("host_only", "self._host_only_cookies")):
+        sts = [n for n in ast.walk(sv.node) if isinstance(n, ast.Assign) and isinstance(n.targets[0], ast.Subscript) and norm.raw(n.targets[0].value) == "morsel_data"
+               and isinstance(n.targets[0].slice, ast.Constant) and n.targets[0].slice.value == keyname]
+        if not sts:
+            continue  # reported by C16.persist above
+        for st in sts:
+            loops = [l for l in K.loop_ancestors(st)]
+            inner = loops[0] if loops else None
+            defs = norm.fn_defs(sv.node)
+            def about_table(text):
+                if table in text:
+                    return True
+                try:
+                    names = {n.id for n in ast.walk(ast.parse(text, mode="eval")) if isinstance(n, ast.Name)}
+                except SyntaxError:
+                    return False
+                return any(any(table in norm.raw(d) for d in defs.def_nodes(nm)) for nm in names)
+            lits = [l for cl_ in PC.pc(st, stop=inner, raw=True) for l in cl_] if inner is not None else []
+            foreign = [l.text for l in lits if not about_table(l.text)]
+            if inner is None or "morsel" in norm.raw(inner.iter).split(".")[0] or foreign:
+                chk.violation("C16.persist.own", st, K.short(st), f"if <{table} has the cookie>: morsel_data[{keyname!r}] = ...  directly in the per-cookie loop",
+                              f"save() writes {keyname!r} only " + (f"under `{' and '.join(foreign)}`" if foreign else f"inside `for {norm.raw(inner.target)} in {norm.raw(inner.iter)}`" if inner is not None else "outside the cookie loop")
+                              + f": a cookie that came out of load() keeps this fact in {table} alone (load() removes Max-Age/Expires from the morsel), so the second save() of a restored jar drops it - the cookie comes back as a session cookie that never expires (or as a domain cookie)")
+            else:
+                chk.ok("C16.persist.own", st, f"save() writes {keyname!r} whenever {table} has the cookie, independent of the morsel's attributes")
     identity_rules(chk, repo)
     setcookie_rules(chk, repo)
     hunt3_rules(chk, repo)
